@@ -178,41 +178,62 @@ func propC16(c *Ctx) {
 	_, fRO := l.structField(parserPath, "Scanner", "readOffset")
 	if c.Anchor(rt, "parser.Scanner.readOffset", fRO >= 0) {
 		n := 0
+		advancing := map[*ssa.Function]token.Pos{}
 		for _, fn := range l.RepoFuncs(func(pp string) bool { return pp == parserPath }) {
-			advances := false
-			var pos token.Pos
 			eachInstr(fn, func(ins ssa.Instruction) {
 				st, ok := ins.(*ssa.Store)
 				if !ok {
 					return
 				}
-				fa, ok := isFieldAddrOf(st.Addr, parserPath, "Scanner", fRO)
-				if !ok {
+				if _, ok := isFieldAddrOf(st.Addr, parserPath, "Scanner", fRO); !ok {
 					return
 				}
-				_ = fa
 				// a move by a non-constant displacement (forward step): value = x + d with d not a constant
 				if bo, ok := st.Val.(*ssa.BinOp); ok && (bo.Op == token.ADD || bo.Op == token.SUB) {
 					_, kx := bo.X.(*ssa.Const)
 					_, ky := bo.Y.(*ssa.Const)
 					if !kx && !ky {
-						advances = true
-						pos = st.Pos()
+						advancing[fn] = st.Pos()
 					}
 				}
 			})
-			if !advances {
+		}
+		for _, fn := range l.RepoFuncs(func(pp string) bool { return pp == parserPath }) {
+			pos, ok := advancing[fn]
+			if !ok {
 				continue
 			}
 			n++
+			// AddLine called by the function itself or by a helper split out of
+			// it; a callee that is itself a stepping function records lines for
+			// its own steps only and is not followed
 			adds := false
-			eachInstr(fn, func(ins ssa.Instruction) {
-				if ci, ok := ins.(ssa.CallInstruction); ok {
-					if f := ci.Common().StaticCallee(); f != nil && f.Name() == "AddLine" {
-						adds = true
-					}
+			seen := map[*ssa.Function]bool{}
+			var look func(g *ssa.Function, depth int)
+			look = func(g *ssa.Function, depth int) {
+				if seen[g] {
+					return
 				}
-			})
+				seen[g] = true
+				eachInstr(g, func(ins ssa.Instruction) {
+					ci, ok := ins.(ssa.CallInstruction)
+					if !ok {
+						return
+					}
+					f := ci.Common().StaticCallee()
+					if f == nil {
+						return
+					}
+					if f.Name() == "AddLine" {
+						adds = true
+						return
+					}
+					if _, adv := advancing[f]; !adv && depth < 2 && len(f.Blocks) > 0 && funcPkgPath(f) == parserPath {
+						look(f, depth+1)
+					}
+				})
+			}
+			look(fn, 0)
 			c.Check(rt, fnName(fn)+" | readOffset += w", l.Pos(pos), adds, "the advancing function records line starts", "the scanner moves its read offset by a computed distance in a function that never calls AddLine: newlines stepped over there are missing from the line table and every later position is reported too many lines up")
 		}
 		if n == 0 {
